@@ -36,8 +36,9 @@ def gen():
         tu.add('w_int_' + f, 'int& o', 'o = std::numeric_limits<half>::%s;' % f, kind='limint', what=f)
     for f in ('is_signed', 'has_infinity', 'has_quiet_NaN', 'has_signaling_NaN', 'is_specialized', 'is_integer', 'is_exact'):
         tu.add('w_bool_' + f, 'int& o', 'o = std::numeric_limits<half>::%s ? 1 : 0;' % f, kind='limint', what=f)
-    for n in list(range(0, 11)) + [12, 200]:
-        tu.add('w_round_%d' % n, 'half& o, const half& a', 'o = a.round(%d);' % n, kind='round', n=n)
+    # n is unsigned: "n >= 10 returns the operand" has to hold up to UINT_MAX (a signed intermediate would wrap beyond INT_MAX)
+    for n in list(range(0, 11)) + [12, 200, 2147483647, 2147483648, 4294967280, 4294967295]:
+        tu.add('w_round_%d' % n, 'half& o, const half& a', 'o = a.round(%du);' % n, kind='round', n=n)
     return tu
 
 P_ = 11; EMAX = 15
